@@ -366,6 +366,44 @@ func checkC19(c *Ctx) {
 	// from the field of the same name), and does not re-parse into the live object
 	checkReloadTakeover(c, "C19.2")
 
+	// ---- C19.10 registration expiry is housekeeping that runs for every accepted configuration: nothing statically
+	// reachable from RemoveOldRegistrations can panic by construction (an unchecked type assertion on a component whose
+	// concrete type depends on the configuration - the uncached liveness tester -, an explicit panic, a division)
+	r.Rule("C19.10", "nothing reachable from the expiry pass can panic by construction", 1)
+	if root := c.fn("C19.10", lib, "RegistrationManager", "RemoveOldRegistrations"); root != nil {
+		seen := map[*ssa.Function]bool{}
+		var order []*ssa.Function
+		var visit func(g *ssa.Function)
+		visit = func(g *ssa.Function) {
+			if g == nil || seen[g] || g.Blocks == nil || !isRepoPath(fnPkgPath(g)) || strings.Contains(fnPkgPath(g), "/station/log") || strings.HasSuffix(fnPkgPath(g), "/proto") {
+				return
+			}
+			seen[g] = true
+			order = append(order, g)
+			for _, a := range g.AnonFuncs {
+				visit(a)
+			}
+			eachInstr(g, func(in ssa.Instruction) {
+				if ci, ok := in.(ssa.CallInstruction); ok {
+					visit(ci.Common().StaticCallee())
+				}
+			})
+		}
+		visit(root)
+		nBad := 0
+		for _, g := range order {
+			eachInstr(g, func(in ssa.Instruction) {
+				if cs := panicConstruct(in); cs != "" {
+					nBad++
+					r.Bad("C19.10", fnName(g)+": "+cs, in.Pos(), fnName(g), "the expiry pass reaches a construct that panics for some accepted configuration ("+cs+"): the expiry goroutine dies (or the station with it) and registrations are never removed again")
+				}
+			})
+		}
+		if nBad == 0 {
+			r.OK("C19.10", "RemoveOldRegistrations: no panicking construct reachable", root.Pos(), fmt.Sprintf("%d function(s) scanned: no unchecked type assertion, explicit panic, exit call or integer division by a variable", len(order)))
+		}
+	}
+
 	// ---- C19.3 printers
 	r.Rule("C19.3", "statistics printers: no integer division by a variable; optional interface fields nil-guarded", 5)
 	// an optional cache field holds a usable cache or nothing: the LRU constructor (the only cache constructor that can
